@@ -1,6 +1,7 @@
 package main
 
 import (
+	"errors"
 	"bufio"
 	"context"
 	"fmt"
@@ -27,6 +28,8 @@ type c14case struct {
 	noise  bool     // Flush/Sync interleaved between the CopyData messages
 	lead   []byte   // the messages that make the handler run (nil: Query "copy"); may carry surplus bytes behind their last field
 	tail   []byte   // what the client pipelines behind the end of the copy (nil: Sync, Parse, Sync)
+	cutAt  int      // > 0: the transport delivers only the first cutAt bytes of the client's stream ...
+	rdErr  bool     // ... and then fails every read with a persistent error that is not io.EOF
 }
 
 // the value as pgx's binary decoders return it, in the case language
@@ -141,11 +144,23 @@ func runC14case(cs *c14case) (rows []string, final string, panicked bool, out []
 		raw = append(raw, mParse(nil, []byte("after"), 0)...)
 		raw = append(raw, mSync()...)
 	}
+	if cs.cutAt > 0 && cs.cutAt < len(raw) {
+		raw = raw[:cs.cutAt]
+	}
+	if cs.rdErr {
+		conn.mu.Lock()
+		conn.readErr = errors.New("read: connection reset by peer")
+		conn.mu.Unlock()
+	}
 	conn.push(raw)
 	conn.setEOF()
 	if !conn.waitFinished(idleTimeout) {
 		hang = true
 		conn.Close()
+		if cs.rdErr {
+			// a handler that retries a failing transport for ever cannot be waited for
+			return
+		}
 	}
 	<-done
 	conn.mu.Lock()
@@ -299,40 +314,65 @@ func splitAt(stream []byte, cuts []int) [][]byte {
 	return out
 }
 
-func runC14(c *runCfg) error {
-	if c.replay != "" {
-		f, err := os.Open(c.replay)
+// replayC14 re-runs the binary COPY cases of a replay file on the current tree
+func replayC14(c *runCfg) error {
+	f, err := os.Open(c.replay)
+	if err != nil {
+		return err
+	}
+	defer f.Close()
+	sc := bufio.NewScanner(f)
+	sc.Buffer(make([]byte, 1<<20), 1<<28)
+	for sc.Scan() {
+		l := sc.Text()
+		if !strings.HasPrefix(l, "(c14 ") {
+			continue
+		}
+		n, err := parseSexp(l)
 		if err != nil {
 			return err
 		}
-		defer f.Close()
-		sc := bufio.NewScanner(f)
-		sc.Buffer(make([]byte, 1<<20), 1<<28)
-		for sc.Scan() {
-			l := sc.Text()
-			if !strings.HasPrefix(l, "(c14 ") {
-				continue
-			}
-			n, err := parseSexp(l)
-			if err != nil {
-				return err
-			}
-			cs := &c14case{id: n.list[1].atom, class: "replay", limit: atoi(n.field("limit").list[1].atom), ending: n.field("ending").list[1].atom, noise: n.field("noise").list[1].atom == "1"}
-			for _, o := range n.field("oids").list[1:] {
-				cs.oids = append(cs.oids, atoi(o.atom))
-			}
-			for _, ch := range n.field("chunks").list[1:] {
-				cs.chunks = append(cs.chunks, unhx(ch.atom))
-			}
-			if f := n.field("lead"); f != nil && len(unhx(f.list[1].atom)) > 0 {
-				cs.lead = unhx(f.list[1].atom)
-			}
-			if f := n.field("tail"); f != nil && len(unhx(f.list[1].atom)) > 0 {
-				cs.tail = unhx(f.list[1].atom)
-			}
-			emitC14(c, cs)
+		cs := &c14case{id: n.list[1].atom, class: "replay", limit: atoi(n.field("limit").list[1].atom), ending: n.field("ending").list[1].atom, noise: n.field("noise").list[1].atom == "1"}
+		for _, o := range n.field("oids").list[1:] {
+			cs.oids = append(cs.oids, atoi(o.atom))
 		}
-		return sc.Err()
+		for _, ch := range n.field("chunks").list[1:] {
+			cs.chunks = append(cs.chunks, unhx(ch.atom))
+		}
+		if f := n.field("lead"); f != nil && len(unhx(f.list[1].atom)) > 0 {
+			cs.lead = unhx(f.list[1].atom)
+		}
+		if f := n.field("tail"); f != nil && len(unhx(f.list[1].atom)) > 0 {
+			cs.tail = unhx(f.list[1].atom)
+		}
+		emitC14(c, cs)
+	}
+	return sc.Err()
+}
+
+// the message that starts the copy carries surplus bytes behind its last field (a tuple, the stream
+// signature, noise, the stream itself): they belong to that message, never to the copy stream; simple and
+// extended protocol. [gid] names the group whose reference run (no surplus) is "<gid>.v0".
+func emitC14Surplus(c *runCfg, gid int, L int, oids []int, stream []byte, expect []string) {
+	surplus := [][]byte{{0, 1, 0, 0, 0, 4, 0, 0, 0, 7}, []byte("PGCOPY\n\377\r\n\000"), {0xff, 0xff}, stream}
+	for k, sp := range surplus {
+		if len(sp) > 50 { // the leading message itself stays within the limit
+			continue
+		}
+		leads := [][]byte{
+			msg('Q', cat(cs([]byte("copy")), sp)),
+			cat(mParse(nil, []byte("copy"), 0), mBind(nil, nil, nil, nil, nil), msg('E', cat(cs(nil), be32b(0), sp))),
+		}
+		for li, lead := range leads {
+			chunks := fitChunks([][]byte{stream}, L)
+			emitC14(c, &c14case{id: fmt.Sprintf("%d.s%d", gid, k*2+li), class: "surplus", limit: L, oids: oids, chunks: chunks, ending: "done", expect: expect, lead: lead})
+		}
+	}
+}
+
+func runC14(c *runCfg) error {
+	if c.replay != "" {
+		return replayC14(c)
 	}
 	g := &gen{rng: c.rng}
 	id := 0
@@ -394,22 +434,7 @@ func runC14(c *runCfg) error {
 		}
 		emitGroup("valid", stream, expect, "done")
 		if gi%4 == 0 {
-			// the message that starts the copy carries surplus bytes behind its last field (a tuple, the stream
-			// signature, noise): they belong to that message, never to the copy stream; simple and extended protocol
-			surplus := [][]byte{{0, 1, 0, 0, 0, 4, 0, 0, 0, 7}, []byte("PGCOPY\n\377\r\n\000"), {0xff, 0xff}, stream}
-			for k, sp := range surplus {
-				leads := [][]byte{
-					msg('Q', cat(cs([]byte("copy")), sp)),
-					cat(mParse(nil, []byte("copy"), 0), mBind(nil, nil, nil, nil, nil), msg('E', cat(cs(nil), be32b(0), sp))),
-				}
-				for li, lead := range leads {
-					if len(sp) > 50 { // the leading message itself stays within the limit
-						continue
-					}
-					chunks := fitChunks([][]byte{stream}, L)
-					emitC14(c, &c14case{id: fmt.Sprintf("%d.s%d", id-1, k*2+li), class: "surplus", limit: L, oids: oids, chunks: chunks, ending: "done", expect: expect, lead: lead})
-				}
-			}
+			emitC14Surplus(c, id-1, L, oids, stream, expect)
 		}
 		// corruptions of counts and lengths, truncations, aborted streams
 		if len(stream) > 0 {
